@@ -214,6 +214,16 @@ func DelItem(self Object, key Object) (Object, error) {
 	return nil, ExceptionNewf(TypeError, "'%s' object does not support item deletion", self.Type().Name)
 }
 
+// isTypeObject reports whether t is a class rather than an instance of
+// a Python class (which is represented by a *Type value too).
+//
+// Types made with (*Type).NewType have their base as ObjectType, so
+// the type of t can't be relied on alone: a type which has been made
+// ready has an MRO, an instance never does.
+func isTypeObject(t *Type) bool {
+	return t.Mro != nil || t.ObjectType == TypeType || t.Type().IsSubtype(TypeType)
+}
+
 // GetAttrString - returns the result or an err to be raised if not found
 //
 // If not found err will be an AttributeError
@@ -237,7 +247,7 @@ func GetAttrString(self Object, key string) (res Object, err error) {
 	// Reading an attribute of a class: search the dictionaries of the
 	// classes in its MRO (not only its own) and bind what is found with
 	// __get__(None, cls) so classmethods and staticmethods work
-	if cls, ok := self.(*Type); ok && cls.Type().IsSubtype(TypeType) {
+	if cls, ok := self.(*Type); ok && isTypeObject(cls) {
 		if res = cls.NativeGetAttrOrNil(key); res != nil {
 			if _, isProperty := res.(*Property); !isProperty {
 				if I, ok := res.(I__get__); ok {
@@ -294,7 +304,7 @@ func GetAttr(self Object, keyObj Object) (res Object, err error) {
 func SetAttrString(self Object, key string, value Object) (Object, error) {
 	// The built-in types are shared by all the contexts in the
 	// process so, as in CPython, their attributes can't be changed
-	if t, ok := self.(*Type); ok && t.Type().IsSubtype(TypeType) && t.Flags&TPFLAGS_HEAPTYPE == 0 {
+	if t, ok := self.(*Type); ok && isTypeObject(t) && t.Flags&TPFLAGS_HEAPTYPE == 0 {
 		return nil, ExceptionNewf(TypeError, "can't set attributes of built-in/extension type '%s'", t.Name)
 	}
 	// First look in type's dictionary etc for a property that could
@@ -340,7 +350,7 @@ func SetAttr(self Object, keyObj Object, value Object) (Object, error) {
 
 // DeleteAttrString
 func DeleteAttrString(self Object, key string) error {
-	if t, ok := self.(*Type); ok && t.Type().IsSubtype(TypeType) && t.Flags&TPFLAGS_HEAPTYPE == 0 {
+	if t, ok := self.(*Type); ok && isTypeObject(t) && t.Flags&TPFLAGS_HEAPTYPE == 0 {
 		return ExceptionNewf(TypeError, "can't set attributes of built-in/extension type '%s'", t.Name)
 	}
 	// First look in type's dictionary etc for a property that could
